@@ -99,3 +99,20 @@ func (store *HStore) VerifCollisionCount(bucket int) int {
 	b.hints.collisions.Unlock()
 	return n
 }
+
+// VerifStaleTail lists the data files that are being rewritten in place by a GC pass and still
+// carry old content above the write head (classification of known finding KF-C07-stale-tail).
+func (store *HStore) VerifStaleTail() (ids []int) {
+	for _, bkt := range store.buckets {
+		if bkt.datas == nil {
+			continue
+		}
+		for i := 0; i < MAX_NUM_CHUNK; i++ {
+			dc := &bkt.datas.chunks[i]
+			if dc.rewriting && dc.writingHead < dc.size {
+				ids = append(ids, i)
+			}
+		}
+	}
+	return
+}
